@@ -376,9 +376,27 @@ fn run_reader(stream: &[u8], c: &Cfg, vs: &mut Vec<V>, stats: &mut Stats, log: &
     }
     let stops_early = tok.segments.iter().any(|s| s.start >= limit) || tok.delimiters.iter().any(|d| d + 2 >= limit);
 
-    let standard = StreamReader::chunk_judge(c.max_record, c.limit);
+    let standard_inner = StreamReader::chunk_judge(c.max_record, c.limit);
     let judge_seed = c.judge_seed;
-    let custom = move |range: Range<u64>, _iov: ConsumingIovec<'_>| -> StreamAction {
+    // What the judge is shown must be live memory too.
+    let dangling = std::cell::Cell::new(false);
+    let look = |iov: &ConsumingIovec<'_>| {
+        // First slice and the most recent ones (a full scan on every call
+        // would be quadratic in the record size).
+        let sp = iov.stable_prefix();
+        let n = sp.len();
+        for s in sp.iter().take(1).chain(sp.iter().skip(n.saturating_sub(2).max(1))) {
+            if owning_iovec::verif::locate(s.as_ptr(), s.len()).is_none() && pool_locate(s.as_ptr(), s.len()).is_none() {
+                dangling.set(true);
+            }
+        }
+    };
+    let standard = |range: Range<u64>, iov: ConsumingIovec<'_>| -> StreamAction {
+        look(&iov);
+        standard_inner(range, iov)
+    };
+    let custom = |range: Range<u64>, iov: ConsumingIovec<'_>| -> StreamAction {
+        look(&iov);
         if range.is_empty() {
             if range.start >= limit { StreamAction::Stop } else { StreamAction::KeepGoing }
         } else if range.start >= limit {
@@ -467,6 +485,9 @@ fn run_reader(stream: &[u8], c: &Cfg, vs: &mut Vec<V>, stats: &mut Stats, log: &
     if got > 0 {
         stats.bump("probe.records_returned");
     }
+    if dangling.get() {
+        push_v(vs, "C05", "C05.judge_dangling", "the record judge was shown a slice that is not inside a live arena chunk".into());
+    }
     if c.hold {
         drop(sr);
     }
@@ -525,7 +546,7 @@ impl World for StreamWorld {
             _ => rng.chance(1, 2),
         };
         knobs.insert("chunker".into(), chunker as u64);
-        knobs.insert("block".into(), rng.below(BLOCKS.len() as u64));
+        knobs.insert("block".into(), rng.below(if ask.tiny { 9 } else { BLOCKS.len() as u64 }));
         knobs.insert("read_seed".into(), if rng.chance(1, 4) { 0 } else { rng.next() >> 1 });
         knobs.insert("hold".into(), rng.chance(1, 3) as u64);
         knobs.insert("arena_prep".into(), if rng.chance(1, 2) { 0 } else { rng.below(64) });
@@ -541,12 +562,12 @@ impl World for StreamWorld {
                 knobs.insert("judge_seed".into(), rng.next() >> 1);
             }
         }
-        if rng.chance(1, if ask.thorough { 6 } else { 12 }) {
+        if !ask.tiny && rng.chance(1, if ask.thorough { 6 } else { 12 }) {
             knobs.insert("sweep".into(), 1);
         }
         let mut ops = Vec::new();
-        let nrec = rng.range(0, 7);
-        let small = rng.chance(3, 4);
+        let nrec = rng.range(0, if ask.tiny { 3 } else { 7 });
+        let small = ask.tiny || rng.chance(3, 4);
         let class = *rng.pick(&[0u64, 0, 1, 2, 3]);
         let (roff, rlen) = region(class);
         if rng.chance(1, 3) {
@@ -555,8 +576,8 @@ impl World for StreamWorld {
         for _ in 0..nrec {
             let r = rng.below(10);
             let len = if small { rng.boundary_size(&[0, 1, 2, 3], 12) } else { rng.boundary_size(&[0, 1, 251, 252, 253, 300], 600) };
-            let len = if rng.chance(1, 40) { rng.range(64_000, 66_000) } else { len };
-            let off = roff as u64 + rng.below(rlen as u64 - 70_000);
+            let len = if !ask.tiny && rng.chance(1, 40) { rng.range(64_000, 66_000) } else { len };
+            let off = roff as u64 + rng.below((rlen as u64).saturating_sub(70_000).max(1));
             if r < 6 {
                 ops.push(Op::new("rec", [len, off, rng.below(4), 0]));
             } else if r < 8 {
@@ -628,4 +649,91 @@ impl World for StreamWorld {
         log.u64(violations.len() as u64);
         Outcome { violations, log_hash: log.0, nontrivial }
     }
+}
+
+
+/// Long log through `StreamReader`: many records (per-run size class, incl.
+/// empty and rejected ones) read with one reader object alive; after every
+/// record the live arena bytes must stay below a bound that does not depend
+/// on how much has been read.  Serves C10 (and re-checks C06 at scale).
+pub fn long_log(plan: &Plan, stats: &mut Stats, log: &mut LogHash, vs: &mut Vec<V>, base_bytes: usize, calls: &mut u64) {
+    let total = (plan.knob("keep_total_mib").max(1) as usize) << 20;
+    let class = plan.knob("record_class");
+    let block = plan.knob("block") as usize;
+    let block_opt = if block == 0 { None } else { Some(block) };
+    let mut rng = Rng::new(plan.knob("sched_seed") ^ 0x106);
+    // Writer: the reference encoder, one delimiter after each record.
+    let mut stream: Vec<u8> = Vec::with_capacity(total + 70_000);
+    let mut nrec = 0u64;
+    while stream.len() < total {
+        let len = match class {
+            0 => 0,
+            1 => rng.below(4),
+            2 => rng.below(300),
+            3 => if rng.chance(1, 50) { rng.range(60_000, 70_000) } else { rng.below(2_000) },
+            4 => if rng.chance(1, 2) { 0 } else { rng.below(40) },
+            _ => rng.below(70_000),
+        };
+        if class == 4 && rng.chance(1, 3) {
+            // A record rejected at its first byte.
+            stream.push(0xFF);
+            stream.extend_from_slice(pool_slice(rng.below(1 << 19), rng.below(6)));
+        } else {
+            let payload = pool_slice(rng.below(1 << 19), len);
+            stream.extend_from_slice(&refcodec::encode(payload, refcodec::PROD_M1, refcodec::PROD_M2));
+        }
+        stream.extend_from_slice(&[0xFE, 0xFD]);
+        nrec += 1;
+    }
+    let tok = refcodec::tokenise(&stream);
+    let expected: Vec<&refcodec::Segment> = tok.segments.iter().filter(|s| s.decoded.is_some()).collect();
+    let judge = StreamReader::chunk_judge(usize::MAX, None);
+    let mut sr = StreamReader::new();
+    let mut reader = FaultyStream::new(&stream, if plan.knob("eintr") != 0 { plan.knob("sched_seed") | 1 } else { 0 });
+    let bound = crate::w_codec::footprint_bound(block_opt.unwrap_or(hcobs::DEFAULT_BLOCK_SIZE).max(70_000), 1);
+    let mut got = 0usize;
+    let mut max_live = 0usize;
+    loop {
+        let item = match sr.next_record_bytes(&mut reader, &judge, block_opt) {
+            Ok(x) => x,
+            Err(e) => {
+                push_v(vs, "C06", "C06.io_error", format!("next_record_bytes failed on the long log: {}", e));
+                break;
+            }
+        };
+        *calls += 1;
+        stats.ops_executed += 1;
+        let Some((iov, range)) = item else { break };
+        if got >= expected.len() {
+            push_v(vs, "C06", "C06.extra_record", format!("unexpected record at {}..{} in the long log", range.start, range.end));
+            break;
+        }
+        let want = expected[got];
+        let bytes = iov.flatten().unwrap_or_else(|v| v);
+        if range.start != want.start || range.end != want.end || &bytes != want.decoded.as_ref().unwrap() {
+            push_v(vs, "C06", "C06.content", format!("record {} of the long log at {}..{} differs from the reference ({}..{})", got, range.start, range.end, want.start, want.end));
+            break;
+        }
+        got += 1;
+        let live = ByteArena::num_live_bytes().saturating_sub(base_bytes);
+        max_live = max_live.max(live);
+        if live > bound {
+            push_v(vs, "C10", "C10.reader_footprint", format!("after {} records ({} bytes of log): {} live arena bytes, bound {}", got, range.end, live, bound));
+            break;
+        }
+    }
+    if vs.is_empty() && got != expected.len() {
+        push_v(vs, "C06", "C06.missing_record", format!("long log: {} of {} records returned", got, expected.len()));
+    }
+    fault_stats(&reader, stats);
+    log.u64(got as u64);
+    log.u64(stream.len() as u64);
+    stats.add("probe.long_log_bytes", stream.len() as u64);
+    stats.add("probe.long_log_records", nrec);
+    stats.counters.entry("probe.max_live_arena_bytes_reader".into()).and_modify(|v| *v = (*v).max(max_live as u64)).or_insert(max_live as u64);
+    let mut sig = LogHash::new();
+    for k in ["record_class", "block", "eintr", "keep_total_mib"] {
+        sig.u64(plan.knob(k));
+    }
+    stats.state(sig.0);
 }
